@@ -253,6 +253,31 @@ def make_xpath_harness(paths):
     return harness
 
 
+def _live_positions(root):
+    """(node, chain) of the tree as it is now, by walking the dataclass fields."""
+    import dataclasses
+
+    from pyoak.legacy.node import AwareASTNode
+
+    out = []
+
+    def rec(n, chain):
+        out.append((n, chain))
+        for f in dataclasses.fields(n):
+            if f.name in ("origin",):
+                continue
+            val = getattr(n, f.name)
+            if isinstance(val, AwareASTNode):
+                rec(val, chain + [(val, f.name, None)])
+            elif isinstance(val, (tuple, list)):
+                for i, c in enumerate(val):
+                    if isinstance(c, AwareASTNode):
+                        rec(c, chain + [(c, f.name, i)])
+
+    rec(root, [(root, None, None)])
+    return out
+
+
 def calc_xpath_harness_factory(shapes):
     def harness(e):
         LZ.lreset()
@@ -272,7 +297,33 @@ def calc_xpath_harness_factory(shapes):
         # a non-root node refuses
         if len(pos) > 1 and pos[1][0].calculate_xpath() is not False:
             e.fail("calculate_xpath-on-non-root", scenario=scenario)
-        e.distinct(sno)
+        # recalculation after an edit in place (removal shifts the later siblings, a replacement
+        # puts a node without a path into the tree): again every node carries its own path
+        edit = "none"
+        if len(pos) > 1:
+            k = 1 + e.choice(len(pos) - 1, "edited_node")
+            edit = e.pick(["replace_with(None)", "replace_with(new leaf)", "replace(v=...)"], "edit")
+            target = pos[k][0]
+            try:
+                if edit == "replace_with(None)":
+                    target.replace_with(None)
+                elif edit == "replace_with(new leaf)":
+                    target.replace_with(LZ.LLeaf(v=4242))
+                else:
+                    if not hasattr(target, "v"):
+                        e.assume(False)
+                    target.replace(v=4343)
+            except Exception:  # noqa: BLE001 -- an edit the tree does not admit: nothing to recalculate
+                e.assume(False)
+            scenario.update(edit=f"{edit} at {'/'.join(f'{f}[{i}]' if i is not None else str(f) for _c, f, i in pos[k][2][1:])}")
+            if root.calculate_xpath() is not True:
+                e.fail("calculate_xpath-refused-attached-root", scenario=scenario)
+            for n, chain in _live_positions(root):
+                want = f"/@root[0]{type(root).__name__}" + "".join(f"/@{f}[{i if i else 0}]{type(c).__name__}" for c, f, i in chain[1:])
+                if n.xpath != want:
+                    scenario.update(node=want, got=n.xpath)
+                    e.fail("calculated-xpath-wrong:after-edit", scenario=scenario)
+        e.distinct((sno, edit, scenario.get("edit")))
         return scenario
 
     return harness
